@@ -15,18 +15,19 @@ open Aw Aw.Store Aw.Store.Commit AwProofs.CommitL
 variable {D : Type}
 
 /-- An event write issued more than ten seconds after the previous flush is itself made durable
-    before it returns: in ANY state, after `insert_one` (that returns), `replace`, `replace_last`
-    or `delete` at a clock reading more than 10 s after `last`, the reopened database equals the
-    connection state — the write itself included —, nothing is pending and `last` is that reading. -/
-theorem age_flush (c : CSt D) (op : COp D) (hs : op.isSingleEventWrite = true)
+    before it returns: in ANY state, after `insert_one`, `insert_many` (any mixture of upserts and
+    new rows, as repaired: F20), `replace`, `replace_last` or `delete` that returns, at a clock
+    reading more than 10 s after `last`, the reopened database equals the connection state — the
+    whole write included —, nothing is pending and `last` is that reading. -/
+theorem age_flush (c : CSt D) (op : COp D) (hs : op.isEventWrite = true)
     (hok : cok c op = true) (ha : op.now - c.last > 10000000) :
     (cstep c op).dur = (cstep c op).cur ∧ (cstep c op).pend = [] ∧ (cstep c op).last = op.now := by
-  rcases single_form c op hs with ⟨_, s, _, e⟩ | ⟨e, _⟩
-  · rw [e]; exact condCommit_age' (Commit.wrote c s op.now) 1 op.now ha
-  · rw [e] at hok; cases hok
+  obtain ⟨m, k, e, _, hm⟩ := evwrite_form' c op hs hok
+  rw [e]
+  exact condCommit_age' m k op.now (by rw [hm]; exact ha)
 
-/-- … and the connection state then contains the write: it is the one elementary write of the
-    operation applied to the previous connection state. -/
+/-- … and the connection state then contains the write: for a single-event write it is the one
+    elementary write of the operation applied to the previous connection state. -/
 theorem age_flush_includes_write (c : CSt D) (op : COp D) (hs : op.isSingleEventWrite = true)
     (hok : cok c op = true) (ha : op.now - c.last > 10000000) :
     ∃ s, elems c.cur op = [s] ∧ (cstep c op).dur = s := by
@@ -35,35 +36,16 @@ theorem age_flush_includes_write (c : CSt D) (op : COp D) (hs : op.isSingleEvent
     rw [e, (condCommit_age (Commit.wrote c s op.now) 1 op.now ha).1]; rfl
   · rw [e] at hok; cases hok
 
-/-- `insert_many` whose list has an upsert, first one `e`: it is that upsert followed by
-    `insert_many` of the rest, and if it is issued more than 10 s after the previous flush then
-    right after this first upsert everything up to it is durable. -/
-theorem age_flush_insertMany_upsert (c : CSt D) (now : Int) (b : String) (es : List (Ev D))
-    (e : Ev D) (rest : List (Ev D)) (h : es.filter (fun e => e.id.isSome) = e :: rest)
-    (ha : now - c.last > 10000000) :
-    Commit.insertMany c now b es =
-      Commit.insertMany (Commit.replace c now b (e.id.getD 0) e) now b
-        (rest ++ es.filter (fun e => e.id.isNone)) ∧
-    (Commit.replace c now b (e.id.getD 0) e).cur = Sqlite.replace c.cur b (e.id.getD 0) e ∧
-    (Commit.replace c now b (e.id.getD 0) e).dur = (Commit.replace c now b (e.id.getD 0) e).cur ∧
-    (Commit.replace c now b (e.id.getD 0) e).pend = [] ∧
-    (Commit.replace c now b (e.id.getD 0) e).last = now := by
-  refine ⟨insertMany_first_upsert c now b es e rest h, ?_, ?_⟩
-  · exact (condCommit_cases _ 1 now).1
-  · exact condCommit_age' (Commit.wrote c _ now) 1 now ha
-
-/-- `insert_many` with only new rows, issued more than 10 s after the previous flush and
-    returning normally: after the operation everything is durable. -/
-theorem age_flush_insertMany_rows (c : CSt D) (now : Int) (b : String) (es : List (Ev D))
-    (h : es.filter (fun e => e.id.isSome) = [])
-    (hok : cok c (.insertMany now b es) = true) (ha : now - c.last > 10000000) :
-    (cstep c (.insertMany now b es)).dur = (cstep c (.insertMany now b es)).cur ∧
-    (cstep c (.insertMany now b es)).pend = [] ∧ (cstep c (.insertMany now b es)).last = now := by
-  simp only [cstep]
-  rw [insertMany_ok _ _ _ _ hok]
-  apply condCommit_age'
-  rw [insertManyMid, (insertRows_fields _ now b _).2.1, h]
-  exact ha
+/-- … for `insert_many` it is the state after ALL its elementary writes (every upsert, every row):
+    the durable state is the last state of the call's own write history. -/
+theorem age_flush_insertMany_whole (c0 : CSt D) (h0 : Init c0) (ops : List (COp D))
+    (now : Int) (b : String) (es : List (Ev D))
+    (hok : cok (crun c0 ops) (.insertMany now b es) = true) (ha : now - (crun c0 ops).last > 10000000) :
+    (cstep (crun c0 ops) (.insertMany now b es)).dur =
+      lastD (crun c0 ops).cur (elems (crun c0 ops).cur (.insertMany now b es)) := by
+  have p := pre_run c0 h0.1 h0.2.1 ops
+  have q := p.step (.insertMany now b es)
+  rw [(age_flush _ (.insertMany now b es) rfl hok ha).1, q.cur_eq, lastD_append, ← p.cur_eq]
 
 /-- Under a clock that never goes back, after any history every pending write was issued at or
     after the last commit and at most 10 s after it (and not after the last clock reading). -/
@@ -120,13 +102,14 @@ example :
     (crun Ex.c0 ops).cur.events.length = 2 ∧ (crun Ex.c0 ops).last = 0 := by
   refine ⟨?_, ?_, ?_, ?_, ?_⟩ <;> decide
 
-/-- `insert_many` by age: with an upsert first, and with rows only -/
+/-- `insert_many` by age: two upserts and a new row issued 10.000001 s after the last commit are
+    all durable when the call returns (before the repair F20 only the first upsert was) -/
 example :
-    [Ex.evId 1 7, Ex.ev 2].filter (fun e => e.id.isSome) = [Ex.evId 1 7] ∧
-    [Ex.ev 1, Ex.ev 2].filter (fun e => e.id.isSome) = [] ∧
-    cok Ex.c0 (.insertMany 10000001 "b" [Ex.ev 1, Ex.ev 2]) = true ∧
-    (10000001 : Int) - Ex.c0.last > 10000000 ∧
-    (cstep Ex.c0 (.insertMany 10000001 "b" [Ex.ev 1, Ex.ev 2])).dur.events.length = 2 := by
-  refine ⟨?_, ?_, ?_, ?_, ?_⟩ <;> decide
+    let c := crun Ex.c0 [.insertOne 1 "b" (Ex.ev 1), .insertOne 2 "b" (Ex.ev 2), .read 3]
+    let op : COp Nat := .insertMany 10000004 "b" [Ex.evId 1 7, Ex.ev 3, Ex.evId 2 8]
+    op.isEventWrite = true ∧ cok c op = true ∧ op.now - c.last > 10000000 ∧
+    (cstep c op).pend = [] ∧ (cstep c op).dur.events.length = 3 ∧
+    (cstep c op).dur.events.map (·.data) = [7, 8, 3] := by
+  refine ⟨?_, ?_, ?_, ?_, ?_, ?_⟩ <;> decide
 
 end AwProofs.C18
